@@ -2,6 +2,8 @@ import Gofasta.Lemmas.Reorder
 import Gofasta.Lemmas.TopK
 import Gofasta.Props.C13
 import Gofasta.Props.C06
+import Gofasta.Props.C03
+import Gofasta.Lemmas.AggOrder
 import Gofasta.Model.Closest
 /-
 C12 — output is a deterministic function of the input, not of threads or scheduling (partial).
@@ -56,6 +58,63 @@ theorem natKey_total (a b : Nat × Nat) (h : a ≠ b) : Gofasta.Props.C06.natLt 
     · left; exact h1
   simp only [Gofasta.Props.C06.natLt, Bool.or_eq_true, decide_eq_true_eq, Bool.and_eq_true, beq_iff_eq]
   omega
+
+/-- the reference symbol of a listed SNP is a function of its position -/
+theorem spec_ref_symbol (hard : Bool) : ∀ (ref q : List Nat) (i : Nat), ∀ s ∈ Spec.specSnpsFrom hard i ref q,
+    i < s.1 ∧ s.2.1 = Spec.shown (ref.getD (s.1 - 1 - i) 0) := by
+  intro ref
+  induction ref with
+  | nil => intro q i s hs; simp [Spec.specSnpsFrom] at hs
+  | cons r rs ih =>
+    intro q i s hs
+    cases q with
+    | nil => simp [Spec.specSnpsFrom] at hs
+    | cons x xs =>
+      simp only [Spec.specSnpsFrom] at hs
+      have tail : ∀ s ∈ Spec.specSnpsFrom hard (i + 1) rs xs, i < s.1 ∧ s.2.1 = Spec.shown ((r :: rs).getD (s.1 - 1 - i) 0) := by
+        intro s hs
+        have := ih xs (i + 1) s hs
+        refine ⟨by omega, ?_⟩
+        have e : s.1 - 1 - i = (s.1 - 1 - (i + 1)) + 1 := by omega
+        rw [e, List.getD_cons_succ]; exact this.2
+      split at hs
+      · rcases List.mem_cons.1 hs with rfl | hs
+        · refine ⟨by simp, ?_⟩
+          have : i + 1 - 1 - i = 0 := by omega
+          simp [this]
+        · exact tail s hs
+      · exact tail s hs
+
+open Gofasta.Lemmas.AggOrder in
+/-- **C12.aggregate_output_any_order** — `snps --aggregate`: the whole table (which mutations, their counts, their
+order, hence the printed text) is the same whatever order the per-sequence results reach the aggregating writer in;
+for every reference and alignment over the accepted alphabet -/
+theorem snps_aggregate_deterministic (hard : Bool) (thrN thrD : Nat) (ref : List Nat)
+    (recs1 recs2 : List (String × List Nat)) (h : recs1.Perm recs2)
+    (hr : C03.Accepted hard ref) (hq : ∀ r ∈ recs1, C03.Accepted hard r.2) :
+    snpsAggregate hard thrN thrD ref recs1 = snpsAggregate hard thrN thrD ref recs2 := by
+  unfold snpsAggregate
+  simp only []
+  have hrows : (recs1.map fun r => snpsRow hard ref r.2).Perm (recs2.map fun r => snpsRow hard ref r.2) := h.map _
+  have hd : KeyDecides (countAll (recs1.map fun r => snpsRow hard ref r.2)) := by
+    intro a ha b hb hpos _
+    have ka := (mem_iff_countOf _ (countAll_keys _).1 a).1 ha
+    have kb := (mem_iff_countOf _ (countAll_keys _).1 b).1 hb
+    have fa := ((countAll_keys _).2 a.1).1 ka.1
+    have fb := ((countAll_keys _).2 b.1).1 kb.1
+    obtain ⟨ra, hra, hsa⟩ := List.mem_flatten.1 fa
+    obtain ⟨rb, hrb, hsb⟩ := List.mem_flatten.1 fb
+    obtain ⟨qa, hqa, rfl⟩ := List.mem_map.1 hra
+    obtain ⟨qb, hqb, rfl⟩ := List.mem_map.1 hrb
+    rw [C03.row hard ref qa.2 hr (hq qa hqa)] at hsa
+    have hqb' : C03.Accepted hard qb.2 := hq qb hqb
+    rw [C03.row hard ref qb.2 hr hqb'] at hsb
+    have sa := spec_ref_symbol hard ref qa.2 0 a.1 hsa
+    have sb := spec_ref_symbol hard ref qb.2 0 b.1 hsb
+    have href : a.1.2.1 = b.1.2.1 := by rw [sa.2, sb.2, hpos]
+    rename_i halt
+    exact Prod.ext hpos (Prod.ext href halt)
+  rw [snps_aggregate_any_order _ _ hrows hd, h.length_eq]
 
 /-- non-vacuity: three records arriving as 2, 0, 1 -/
 example : Reorder.run [(2, "c"), (0, "a"), (1, "b")] = ["a", "b", "c"] := by decide
